@@ -21,7 +21,7 @@ demo() {
     timeout 600 cargo test --offline -p grass --test seed_demo > "$W/seed/confirm_demo_$1.txt" 2>&1; R=$?
     rm -f $DEMO_RS
   else
-    timeout 600 sh seed/demo.sh > "$W/seed/confirm_demo_$1.txt" 2>&1; R=$?
+    timeout 600 bash seed/demo.sh > "$W/seed/confirm_demo_$1.txt" 2>&1; R=$?
   fi
   echo "demo ($1) rc=$R" | tee -a "$L"
   return $R
